@@ -345,7 +345,7 @@ def leaf_paths(s, path=()):
     return [p for i, c in enumerate(s[1:]) for p in leaf_paths(c, path + (i,))]
 
 
-KINDS = ['plain', 'future', 'coro', 'done']
+KINDS = ['plain', 'future', 'coro', 'done', 'custom']          # custom = an object of a user class defining __await__
 
 
 def run_schedule(s, kinds, order, turns):
@@ -359,6 +359,13 @@ def run_schedule(s, kinds, order, turns):
     async def via(fut):
         return await fut
 
+    class Custom:
+        def __init__(self, fut):
+            self.fut = fut
+
+        def __await__(self):
+            return self.fut.__await__()
+
     def leaf(path):
         i = paths.index(path)
         k = kinds[i]
@@ -370,7 +377,7 @@ def run_schedule(s, kinds, order, turns):
             return fut
         futs[i] = fut
         fut.add_done_callback(lambda f, i=i: trace.append(i))
-        return fut if k == 'future' else via(fut)
+        return fut if k == 'future' else Custom(fut) if k == 'custom' else via(fut)
 
     async def driver():
         st = build(s, leaf)
@@ -406,7 +413,7 @@ def check_waiter(case):
     out = Out()
     s, kinds = case['s'], case['kinds']
     paths = leaf_paths(s)
-    pend = [i for i, k in enumerate(kinds) if k in ('future', 'coro')]
+    pend = [i for i, k in enumerate(kinds) if k in ('future', 'coro', 'custom')]
     want_leaf = lambda path: ('P' if kinds[paths.index(path)] == 'plain' else 'R') + '/'.join(map(str, path))
     label = 'shape %s kinds %s' % (json.dumps(s), kinds)
     results = set()
@@ -442,7 +449,7 @@ def gen_waiter(tier):
     q = tier == 'quick'
     for s in SHAPES_Q:
         L = len(leaf_paths(s))
-        for kinds in itertools.product(KINDS if L <= (3 if q else 4) else ['future', 'coro'] if L > 4 else ['plain', 'future', 'coro'], repeat=L):
+        for kinds in itertools.product(KINDS if L <= (3 if q else 4) else ['future', 'coro'] if L > 4 else ['plain', 'future', 'custom'], repeat=L):
             yield {'s': s, 'kinds': list(kinds), 'turns': [0, 1, 2]}
     if not q:
         for s in SHAPES_T:
